@@ -205,6 +205,41 @@ pub fn translate(repo: &Path, out: &mut Out) {
                 out.miss("shared.rs: fn write_layer");
             }
         }
+        // replace_layer_types / replace_layer_metadata: the content metadata is a pair (types, metadata); parsing and
+        // encoding of the document are parameters
+        let cfg5 = crate::imp::Config {
+            methods: vec![("as_ref", "{r}"), ("as_str", "{r}"), ("clone", "{r}"), ("join", "({r} ++ [{0}])"),
+                          (".types", "(fst {r})"), (".metadata", "(snd {r})"), (".types=", "({0}, snd {r})")],
+            mutators: vec![],
+            state_calls: vec![],
+            calls: vec![("LayerContentMetadata{}", "(fst content_metadata, metadata)")],
+            variants: vec![],
+            eq: "beq",
+            take_default: "(@nil N)",
+            mcalls: vec![
+                ("read_toml_file::<LayerContentMetadata>", "(read_doc parse {0})"),
+                ("write_toml_file", "(write_file {1} (Doc (enc {0})))"),
+            ],
+            mmethods: vec![],
+            display: vec![],
+        };
+        if let Some(file) = parse_file(&repo.join("libcnb/src/layer/shared.rs")) {
+            for (name, sig) in [
+                ("replace_layer_types", "(layer_types : Ty)"),
+                ("replace_layer_metadata", "(metadata : Md)"),
+            ] {
+                if let Some(f) = find_free_fn(&file, name) {
+                    let mut tr = crate::imp::Tr::new(&cfg5);
+                    let term = tr.mst(&f.block.stmts, &mut vec![], &[], None);
+                    for m in &tr.missing {
+                        out.miss(format!("shared.rs: {name}: {m}"));
+                    }
+                    let _ = writeln!(g, "(* libcnb/src/layer/shared.rs: fn {name}; content metadata = (types, metadata) *)\nDefinition gen_{name} {{Ty Md}} (parse : bytes -> option (option Ty * Md)) (enc : option Ty * Md -> tv) (layers_dir : path) (layer_name : bytes) {sig} : M unit :=\n{}.", crate::imp::indent(&term, 2));
+                } else {
+                    out.miss(format!("shared.rs: fn {name}"));
+                }
+            }
+        }
         out.coq("GenLayerSharedImp.v").push_str(&g);
     }
     // ---- shared.rs: delete_layer
